@@ -248,6 +248,9 @@ func (c12Resolver) LookupIP(ctx context.Context, network, host string) ([]net.IP
 	if strings.HasSuffix(h, ".test") {
 		return []net.IP{net.ParseIP("127.0.0.1")}, nil
 	}
+	if strings.HasSuffix(h, ".test6") {
+		return []net.IP{net.ParseIP("::1")}, nil
+	}
 	return nil, fmt.Errorf("c12 resolver: no such host %q", host)
 }
 
@@ -647,6 +650,27 @@ func (n *c12Net) arrivals(d time.Duration) []string {
 	return got
 }
 
+// arrivalAt waits up to d for one connection at the named listener
+func (n *c12Net) arrivalAt(label string, d time.Duration) []string {
+	var l net.Listener
+	switch label {
+	case "tcp4":
+		l = n.tcp4
+	case "tcp6":
+		l = n.tcp6
+	}
+	if l == nil {
+		return nil
+	}
+	l.(*net.TCPListener).SetDeadline(time.Now().Add(d))
+	conn, err := l.Accept()
+	if err != nil {
+		return nil
+	}
+	conn.Close()
+	return []string{label}
+}
+
 func c12PatchPort(b []byte, port int) []byte {
 	out := append([]byte(nil), b...)
 	if len(out) >= 2 {
@@ -756,11 +780,13 @@ func c12RunServe(c *core.Ctx, k c12Case) {
 	cl.SetWriteDeadline(time.Now().Add(3 * time.Second))
 	cl.Write(data)
 	code, _ := c12ReadReply(cl)
-	wait := 40 * time.Millisecond
-	if code == 0 {
-		wait = 500 * time.Millisecond
+	var arrived []string
+	if code == 0 && strings.HasPrefix(m, "ok connect ") {
+		// expected arrival: wait generously for it (a passing run returns at once)
+		arrived = n.arrivalAt(k.Listener, 5*time.Second)
 	}
-	arrived := n.arrivals(wait)
+	arrived = append(arrived, n.arrivals(60*time.Millisecond)...)
+	sort.Strings(arrived)
 	cl.Close()
 	select {
 	case <-done:
@@ -931,23 +957,47 @@ func c12RunUDP(c *core.Ctx, k c12Case) {
 			return
 		}
 	}
-	// sentinel
-	sname := "sentinel.test"
-	shdr := append([]byte{0, 0, 0, 3, byte(len(sname))}, sname...)
-	shdr = append(shdr, 0, 0)
-	shdr = c12PatchPort(shdr, n.port("sentinel"))
-	send(append(shdr, []byte("sentinel")...))
-	if got := drain(n.sent, 3*time.Second); len(got) == 0 {
-		c.Disagree("C12/corr/udp/sentinel", "a datagram to an ordinary name (resolved to the sentinel listener) was not relayed: the association is not working", k)
-		return
+	// sentinels: one per listener, sent last and addressed by an ordinary name, so they queue behind
+	// every earlier datagram for the same socket
+	sentinel := func(name, lis string) []byte {
+		h := append([]byte{0, 0, 0, 3, byte(len(name))}, name...)
+		h = append(h, 0, 0)
+		return c12PatchPort(h, n.port(lis))
+	}
+	send(append(sentinel("sentinel.test", "udp4"), []byte("sentinel4")...))
+	if n.udp6 != nil {
+		send(append(sentinel("sentinel.test6", "udp6"), []byte("sentinel6")...))
 	}
 	arrived := map[string]bool{}
-	for _, p := range drain(n.udp4, 30*time.Millisecond) {
-		arrived[string(p)] = true
+	collect := func(u *net.UDPConn, d time.Duration) {
+		for _, p := range drain(u, d) {
+			arrived[string(p)] = true
+		}
 	}
-	for _, p := range drain(n.udp6, 30*time.Millisecond) {
-		arrived[string(p)] = true
+	// wait (generously: a passing run returns at once) for the sentinels and for everything the model
+	// says is relayed to a reachable listener; then a short grace period for anything else
+	deadline := time.Now().Add(5 * time.Second)
+	complete := func() bool {
+		if !arrived["sentinel4"] || (n.udp6 != nil && !arrived["sentinel6"]) {
+			return false
+		}
+		for _, p := range pkts {
+			if strings.HasPrefix(p.model, "ok send ") && !p.opt && !arrived[string(p.payload)] {
+				return false
+			}
+		}
+		return true
 	}
+	for !complete() && time.Now().Before(deadline) {
+		collect(n.udp4, 20*time.Millisecond)
+		collect(n.udp6, 20*time.Millisecond)
+	}
+	if !arrived["sentinel4"] {
+		c.Disagree("C12/corr/udp/sentinel", "a datagram to an ordinary name (resolved to the local listener) was not relayed: the association is not working", k)
+		return
+	}
+	collect(n.udp4, 60*time.Millisecond)
+	collect(n.udp6, 60*time.Millisecond)
 	mayLoop, mayPriv, _ := c12May(k.Cfg, k.User)
 	for _, p := range pkts {
 		class, local, _, priv, _ := c12DstClass(p.dst)
@@ -1320,6 +1370,7 @@ func init() {
 				{c12Dst{FQDN: "127.0.0.1", Form: "domain"}, "udp4"},
 				{c12Dst{FQDN: "ip6-loopback", Form: "domain"}, "udp6"},
 				{c12Dst{FQDN: "other.test", Form: "domain"}, "udp4"},
+				{c12Dst{FQDN: "other.test6", Form: "domain"}, "udp6"},
 			}
 			for _, mode := range []string{"stream", "datagram"} {
 				for _, cfg := range []*c12Cfg{plain, ald} {
